@@ -181,6 +181,13 @@ func runC15(env *Env) {
 	R := env.R
 	R.Rule = "build pairs (incl. pairs where several old files tie as bsdiff candidates) diffed repeatedly under GOMAXPROCS {1,2,4,7,16} with full and adversarially short source reads; patch and signature bytes compared across runs; the optimizer repeated with fixed parameters; the whole pipeline repeated in child processes pinned to 1, 2 and 3 CPUs (taskset) with partitions 2/4/8; distinct by seed; every case is non-trivial (at least 4 runs compared)"
 	if env.Replay != "" {
+		var ac C15AbandonedCase
+		replayCase(env, &ac)
+		if ac.Kind == "after-cancelled-diff" {
+			c15Abandoned(env, &ac)
+			printOutcome(env)
+			return
+		}
 		var c C15Case
 		replayCase(env, &c)
 		m, _ := wvlib.StartModel()
@@ -215,4 +222,12 @@ func runC15(env *Env) {
 		}
 	}
 	stopModels(env, models)
+	// a diff started after a CANCELLED diff has returned (its goroutines still winding down)
+	nAb := 6
+	if env.Thorough() {
+		nAb = 60
+	}
+	for i := 0; i < nAb; i++ {
+		c15Abandoned(env, &C15AbandonedCase{Seed: rng.Next(), Comp: comps[i%3], Paused: i%2 == 0, Kind: "after-cancelled-diff"})
+	}
 }
